@@ -7,7 +7,9 @@ package neorpc
 
 import (
 	"encoding/json"
+	"errors"
 	"fmt"
+	"slices"
 	"strings"
 
 	"github.com/nspcc-dev/neo-go/pkg/core/transaction"
@@ -117,6 +119,9 @@ func (s *SignerWithWitness) UnmarshalJSON(data []byte) error {
 	}
 	if len(aux.AllowedContracts) > transaction.MaxAttributes {
 		return fmt.Errorf("invalid number of AllowedContracts: got %d, allowed %d at max", len(aux.AllowedContracts), transaction.MaxAttributes)
+	}
+	if slices.Contains(aux.AllowedGroups, nil) {
+		return errors.New("invalid AllowedGroups: null group key")
 	}
 	if len(aux.AllowedGroups) > transaction.MaxAttributes {
 		return fmt.Errorf("invalid number of AllowedGroups: got %d, allowed %d at max", len(aux.AllowedGroups), transaction.MaxAttributes)
